@@ -24,6 +24,10 @@ Inductive case :=
 | CStore (b : backend) (history : list op) (final : op)
          (before : observation) (nofault : outcome) (after : observation) (crashes : list crash_obs)
          (post : option op) (after_post : observation)
+         (* kill runs: the process stopped before position k (k = 0, 1, ...; more positions than `crashes`: also
+            before a written file / archive is closed); one sequence per flush mode; everything observed (and the
+            follow-up operation performed) by new objects, i.e. with an empty PulseStorage cache *)
+         (kills : list (list crash_obs))
 | CCrash.
 
 Definition store_of (o : observation) : store := map (fun e => (fst (fst e), snd (fst e))) (o_entries o).
@@ -62,7 +66,7 @@ Definition err_eqb (a b : err) : bool :=
 Definition check_corr (c : case) : bool :=
   match c with
   | CCrash => false
-  | CStore b hist fin before nofault after crashes post after_post =>
+  | CStore b hist fin before nofault after crashes post after_post kills =>
       let '(d0, c0) := run_ops current b empty_disk [] hist in
       let pl := plan_of current b d0 c0 fin in
       vis_eqb (vis_of_disk d0) (vis_of_obs before)
@@ -75,6 +79,21 @@ Definition check_corr (c : case) : bool :=
            (dedup_adj (map vis_of_disk (prefix_states (steps_of pl) d0)))
            (dedup_adj (vis_of_obs before :: map (fun x => vis_of_obs (seen x)) crashes ++ [vis_of_obs after]))
       && forallb loader_agrees (before :: after :: map seen crashes)
+      && forallb (fun seq =>
+           list_eqb vis_eqb
+             (dedup_adj (map vis_of_disk (prefix_states (steps_of pl) d0)))
+             (dedup_adj (vis_of_obs before :: map (fun x => vis_of_obs (seen x)) seq ++ [vis_of_obs after]))
+           && forallb loader_agrees (map seen seq)
+           && match post with
+              | None => true
+              | Some po =>
+                  forallb (fun x =>
+                    existsb (fun dk => vis_eqb (vis_of_disk dk) (vis_of_obs (seen x))
+                                       && vis_eqb (vis_of_disk (fst (run_ops current b dk [] [po])))
+                                                  (vis_of_obs (seen_post x)))
+                            (prefix_states (steps_of pl) d0)) seq
+                  && forallb loader_agrees (map seen_post seq)
+              end) kills
       && (match post with
           | None => true
           | Some po =>
@@ -122,15 +141,18 @@ Definition in_scope (fin : op) (before : observation) : bool :=
 Definition check_spec (c : case) : bool :=
   match c with
   | CCrash => false
-  | CStore b hist fin before nofault after crashes post after_post =>
+  | CStore b hist fin before nofault after crashes post after_post kills =>
       if in_scope fin before then
-        let ok (o : observation) := all_load o && old_or_new fin before o in
+        let ok (o : observation) := negb (o_missing o) && all_load o && old_or_new fin before o in
+        let ok_crash (x : crash_obs) :=
+          ok (seen x)
+          && (negb (writes_before x =? 0) || vis_eqb (vis_of_obs (seen x)) (vis_of_obs before))
+          (* a later operation (same PulseStorage after a raise, a new process after a kill) keeps the storage
+             usable and loadable *)
+          && (match post with Some _ => negb (o_missing (seen_post x)) && all_load (seen_post x) | None => true end) in
         ok after
-        && forallb (fun x => ok (seen x)
-                             && (negb (writes_before x =? 0) || vis_eqb (vis_of_obs (seen x)) (vis_of_obs before))
-                             (* a later operation on the same PulseStorage keeps the storage loadable *)
-                             && (match post with Some _ => all_load (seen_post x) | None => true end))
-                   crashes
+        && forallb ok_crash crashes
+        && forallb (forallb ok_crash) kills
         && (match post with Some _ => negb (all_load after) || all_load after_post | None => true end)
         && (match nofault with
             | OutErr _ => vis_eqb (vis_of_obs after) (vis_of_obs before)
